@@ -96,6 +96,12 @@ def run(tier, seed, t0):
     try:
         tdir = vlib.outdir(PROP, "traces", clean=True)
         behs, info = vlib.gen_cases("GEN_Handshake", "GEN_Handshake_6.cfg" if thorough else "GEN_Handshake.cfg")
+        # frames of the connection's life right behind OpenOk (same burst: read in OpenOk's pass or, with the byte
+        # and random cuts, in later ones): the handshake is complete, they are not its business
+        done = [b for b in behs if b and b[-1]["k"] == "openok"]
+        behind = [[{"k": "hb0", "a": True, "b": True}], [{"k": "blocked0", "a": True, "b": True}],
+                  [{"k": "blocked0", "a": True, "b": True}, {"k": "hb0", "a": True, "b": True}]]
+        behs = behs + [b + t for b in done for t in behind]
         scs = scenarios(behs, tier, seed)
         spath = os.path.join(tdir, "scenarios.jsonl")
         with open(spath, "w") as f:
